@@ -73,7 +73,7 @@ theorem tieA_rx2_complete (s0 : Session) (gs : Gen.SessionFn.Session) (g : Gen.S
     (Gen.SessionFn.Session.rx2_complete gs g (TieA.regionOf r)).bind
         (fun o => (TieA.respOf o.1).map (fun resp => (resp, TieA.sessOf s0 o.2.1, TieA.cfgOf o.2.2)))
       = some (rx2Complete (TieA.sessOf s0 gs) (TieA.cfgOf g) r) :=
-  TieA.rx2_complete_eq s0 gs g r hw
+  TieA.tieA_rx2_complete s0 gs g r hw
 
 /-- non-vacuity: at count 127 with ADR on, EU868 DR3 → DR2, the count becomes 128 -/
 example :
